@@ -199,6 +199,15 @@ func (s *session[H]) doRequest(
 	}
 
 	h, err := s.processResponses(r)
+	if err == nil && h[0].Height() != req.GetOrigin() {
+		// verification ensures the headers are adjacent to each other and valid against `from`,
+		// but not that they are the ones that were asked for
+		err = fmt.Errorf(
+			"peer sent headers starting at %d, while requested from %d",
+			h[0].Height(),
+			req.GetOrigin(),
+		)
+	}
 	if err != nil {
 		span.SetStatus(codes.Error, err.Error())
 		logFn := log.Errorw
